@@ -128,6 +128,11 @@ pub fn fence_programs() -> Vec<(String, AProg)> {
 /// Label-focused programs for C23: mixed case, several labels per statement, repeated labels at one address, labels on .end, externals.
 pub fn label_programs() -> Vec<(String, AProg)> {
     let mut v = vec![];
+    // several labels on one statement, one of them (first / middle / last, same or other letter case) declared again at another address
+    for (ls, dup) in [(vec!["LA", "LB"], "LB"), (vec!["LA", "LB"], "la"), (vec!["LA", "LB", "LC"], "lc"), (vec!["LA", "LB", "LC"], "LB"), (vec!["START", "LOOP"], "LOOP"), (vec!["LA", "LB", "LC", "LD_"], "Lc")] {
+        v.push((format!("labels {ls:?}, {dup} declared again"), block(0x3000, vec![AStmt { labels: ls.iter().map(|s| s.to_string()).collect(), nuc: Nuc::Halt }, st(Nuc::Halt), lst(dup, Nuc::Halt)])));
+        v.push((format!("{dup} declared, then again among labels {ls:?}"), block(0x3000, vec![lst(dup, Nuc::Halt), st(Nuc::Halt), AStmt { labels: ls.iter().map(|s| s.to_string()).collect(), nuc: Nuc::Halt }])));
+    }
     let names = ["a", "Zz", "LOOP_1", "mIxEd", "_u", "Q9"];
     for (i, n) in names.iter().enumerate() {
         for origin in [0x0000u16, 0x3000, 0xFDFE] {
@@ -220,7 +225,7 @@ impl Families {
             "LIM" => self.lim.len() as u64, "BLK" => self.blk.len() as u64, "BASE" => self.base.len() as u64,
             "FENCE" => self.fence.len() as u64, "LAB" => self.lab.len() as u64, "F1" => self.f1.len() as u64, "UNI" => self.uni.len() as u64, "BIG" => self.big.len() as u64,
             "F2" => (self.f1.len() as u64) * 400,
-            "STR" => 1 + 10 + 100 + 1000 + 10000,
+            "STR" => 1 + 12 + 144 + 1728 + 20736,
             _ => 0,
         }
     }
@@ -237,10 +242,10 @@ impl Families {
             "UNI" => self.uni.get(i as usize).map(|x| x.1.clone()),
             "BIG" => self.big.get(i as usize).map(|x| x.1.clone()),
             "STR" => {
-                const A: [char; 10] = ['a', ' ', '\t', '\n', '\r', '\0', '"', '\\', ';', 'é'];
-                let (len, mut k) = if i < 1 { (0, 0) } else if i < 11 { (1, i - 1) } else if i < 111 { (2, i - 11) } else if i < 1111 { (3, i - 111) } else { (4, i - 1111) };
+                const A: [char; 12] = ['a', ' ', '\t', '\n', '\r', '\0', '"', '\\', ';', 'é', 'n', '0'];
+                let (len, mut k) = if i < 1 { (0, 0) } else if i < 13 { (1, i - 1) } else if i < 157 { (2, i - 13) } else if i < 1885 { (3, i - 157) } else { (4, i - 1885) };
                 let mut lit = String::new();
-                for _ in 0..len { lit.push(A[(k % 10) as usize]); k /= 10; }
+                for _ in 0..len { lit.push(A[(k % 12) as usize]); k /= 12; }
                 Some(block(0x3000, vec![lst("S", Nuc::Stringz(lit)), st(Nuc::Lea(0, lab("S")))]))
             }
             "F2" => { let b = self.f1.get((i / 400) as usize)?; if b.1.len() > 9 { return None; } let fs = faults(&b.1); fs.get((i % 400) as usize * (fs.len() / 400).max(1)).map(|x| x.1.clone()) }
